@@ -1,4 +1,7 @@
 import Infretis.Lemmas.Lattice
+import Infretis.Lemmas.LatticeMovesShoot
+import Infretis.Lemmas.LatticeMovesAlg
+import Infretis.Lemmas.LatticeLength
 import Mathlib.Algebra.Order.Archimedean.Basic
 /-!
 # C01 — sampling is unbiased: exact crossing probabilities are reproduced
@@ -30,6 +33,15 @@ no theorem about a model decides it.  What is proved here, for all sizes:
   snapshot (first interface −1.8 %, last +1.2 %, 2·10⁵ steps × 8 runs) and its absence after the repair.
 * `swap_step_invariant` — drawing the assignment of paths to ensembles from its conditional
   distribution (what the ∞-swap matrix of C02 encodes) preserves the product distribution.
+* Extension (last sections; model `Infretis.LatticeMoves`, compared draw for draw with the real `tis.shoot` on the real
+  plug-in engine by `harness/props/c01_ext.py`): `shoot_generates`, `shoot_accept_iff`, `shoot_rejects_unfit`,
+  `shoot_length_rule_xi` — the whole shooting move on the lattice as a function of its draws: which draws give which
+  accepted path, for all paths; `shoot_detailed_balance_paths`, `shoot_invariant_finite` — reversibility between any two
+  concrete paths and invariance over any finite family; `swap_marginal_expect`, `swap_marginal_row_sum`,
+  `swap_rao_blackwell` — the matrix of marginals of a weighted set of assignments and the Rao–Blackwell identity over
+  finite sums; `estimate_of_stationary_fractions` — with stationary fractions the estimator equals the ratio of
+  expectations, the high-acceptance weights cancel.  Not proved: the measure-theoretic step draws → probabilities,
+  ergodicity, reversibility of the wire-fencing kernel, permanent = Σ over permutations.
 -/
 namespace Infretis.C01
 open Infretis.Lattice
@@ -274,6 +286,289 @@ theorem swap_step_invariant (ws : List Rat) (hZ : lsum ws ≠ 0) (j : Nat) (hj :
   rw [lsum_map_mul_right, mul_div_cancel₀ _ hZ]
 
 example : lsum [1, 2, 1] ≠ 0 ∧ lsum ([1, 2, 1].map (fun w => w * (([1, 2, 1] : List Rat)[1] / lsum [1, 2, 1]))) = 2 := by
+  decide +kernel
+
+/-! ## Extension: the shooting move on concrete lattice paths, the swap step's marginals, the estimator's limit
+
+`Infretis.LatticeMoves.latShoot` is `tis.shoot` run on the plug-in engine as a function of its draws (index, ξ, two
+coin lists); the tie (`harness/props/c01_ext.py`) runs it, C09's generic `Moves.shoot` and the real `tis.shoot` on the
+same draws on every run.  Reading of the next four theorems together, for an old path `o` and a new path `n` of an
+ensemble [i+]:  the event "the move returns ACC with path n and `generated[3] = s'`" is exactly
+  { index s with o[s] = n[s'] } × { backward coins spell n[s'-1], …, n[0] } × { forward coins spell n[s'+1], … }
+  × { ξ ≤ (L_o−2)/(L_n−2) },  non-empty only if n crosses λ_i and L_n ≤ maxlength,
+so (uniform index, fair coins, uniform ξ — the assumption on numpy's generator) its probability is
+  #{s : o[s] = n[s']}/(L_o−2) · 2^{−(L_n−1)} · min(1, (L_o−2)/(L_n−2)), and summed over s' it is `kernelPaths o n`.
+The measure-theoretic step from "set of draws" to "probability" is not formalised. -/
+section Shooting
+open Infretis.LatticeMoves
+
+/-- **The move returns the path its coins spell, for all paths.**  Old path arbitrary (only `old[idx]` is read),
+    any shooting index inside, any two segments leaving (0, top) (the backward one on the left), any spare coins,
+    any ξ under which the new path fits: the answer is that path, accepted iff it crosses λ_i. -/
+theorem shoot_generates (e : Ens) (old : List Int) (ld : Bool) (idx : Nat) (xi : Rat) (x last : Int)
+    (pre post : List Int) (eb ef : List Bool)
+    (hidx : 1 ≤ idx ∧ idx + 1 < old.length) (hx : old[idx]? = some x)
+    (hin : 0 < x ∧ x < e.top) (hxi : ld = true ∨ 0 < xi)
+    (hpre : Seg e.top x pre) (hlast : pre.getLast? = some last) (hl0 : last ≤ 0)
+    (hpost : Seg e.top x post)
+    (hfit : pre.length + 1 + post.length ≤ maxlenOf e old.length ld xi) :
+    latShoot e old ld idx xi (coinsOf x pre ++ eb) (coinsOf x post ++ ef) =
+      .ok { accept := crossMid e (pre.reverse ++ x :: post),
+            status := if crossMid e (pre.reverse ++ x :: post) = true then .ACC else .NCR,
+            trial := pre.reverse ++ x :: post, genNb := pre.length,
+            maxlen := maxlenOf e old.length ld xi, usedB := pre.length, usedF := post.length } :=
+  latShoot_generates e old ld idx xi x last pre post eb ef (by omega) hidx hx hin hxi hpre hlast hl0 hpost hfit
+
+example :
+    latShoot { mid := 2, top := 3, maxlength := 100 } [0, 1, 2, 1, 0] false 2 (1 / 2)
+        (coinsOf 2 [1, 0] ++ [true]) (coinsOf 2 [1, 2, 3] ++ []) =
+      .ok { accept := true, status := .ACC, trial := [0, 1, 2, 1, 2, 3], genNb := 2, maxlen := 8, usedB := 2, usedF := 3 }
+    ∧ Seg 3 2 [1, 0] ∧ Seg 3 2 [1, 2, 3] := by
+  refine ⟨by decide +kernel, by simp [Seg], by simp [Seg]⟩
+
+/-- **Exact characterisation of acceptance** (both directions): the move answers `o` with `accept = true` iff the
+    shooting point is inside, both coin lists start with the coins of two segments (backward one ending on the left),
+    the pasted path fits the length limit and crosses λ_i, and `o` is that path with its bookkeeping. -/
+theorem shoot_accept_iff (e : Ens) (old : List Int) (ld : Bool) (idx : Nat) (xi : Rat) (cb cf : List Bool) (o : Out) :
+    (latShoot e old ld idx xi cb cf = .ok o ∧ o.accept = true) ↔
+    ∃ x last pre post, old[idx]? = some x ∧ (1 ≤ idx ∧ idx + 1 < old.length) ∧ (0 < x ∧ x < e.top)
+      ∧ (ld = true ∨ 0 < xi)
+      ∧ Seg e.top x pre ∧ pre.getLast? = some last ∧ last ≤ 0 ∧ Seg e.top x post
+      ∧ pre.length + 1 + post.length ≤ maxlenOf e old.length ld xi
+      ∧ crossMid e (pre.reverse ++ x :: post) = true
+      ∧ cb.take pre.length = coinsOf x pre ∧ cf.take post.length = coinsOf x post
+      ∧ o = { accept := true, status := .ACC, trial := pre.reverse ++ x :: post, genNb := pre.length,
+              maxlen := maxlenOf e old.length ld xi, usedB := pre.length, usedF := post.length } := by
+  constructor
+  · rintro ⟨h, hacc⟩
+    obtain ⟨x, last, pre, post, hx, hidx, hin, hpre, hlast, hl0, hpost, htr, hfit, hcr, hcb, hcf, hst, hnb, hub, huf,
+      hml, hxi⟩ := latShoot_acc_sound e old ld idx xi cb cf o h hacc
+    refine ⟨x, last, pre, post, hx, hidx, hin, hxi, hpre, hlast, hl0, hpost, hfit, htr ▸ hcr, hcb, hcf, ?_⟩
+    cases o
+    simp_all
+  · rintro ⟨x, last, pre, post, hx, hidx, hin, hxi, hpre, hlast, hl0, hpost, hfit, hcr, hcb, hcf, rfl⟩
+    have hb : cb = coinsOf x pre ++ cb.drop pre.length := by rw [← hcb, List.take_append_drop]
+    have hf : cf = coinsOf x post ++ cf.drop post.length := by rw [← hcf, List.take_append_drop]
+    have := shoot_generates e old ld idx xi x last pre post (cb.drop pre.length) (cf.drop post.length)
+      hidx hx hin hxi hpre hlast hl0 hpost hfit
+    rw [← hb, ← hf, hcr] at this
+    exact ⟨by simpa using this, rfl⟩
+
+example : latShoot { mid := 2, top := 3, maxlength := 100 } [0, 1, 2, 1, 0] false 2 (1 / 2) [false, false] [true]
+    = .ok { accept := true, status := .ACC, trial := [0, 1, 2, 3], genNb := 2, maxlen := 8, usedB := 2, usedF := 1 } := by
+  decide +kernel
+
+/-- **A spelled path that does not fit the length limit is never accepted** — with `shoot_generates` and
+    `shoot_length_rule_xi`: for coins that spell a path of the ensemble, accepted ⇔ ξ·(L_new−2) ≤ L_old−2 (and
+    L_new ≤ maxlength). -/
+theorem shoot_rejects_unfit (e : Ens) (old : List Int) (ld : Bool) (idx : Nat) (xi : Rat) (x : Int)
+    (pre post : List Int) (eb ef : List Bool) (hx : old[idx]? = some x)
+    (hpre : Seg e.top x pre) (hpost : Seg e.top x post)
+    (hunfit : maxlenOf e old.length ld xi < pre.length + 1 + post.length) (o : Out)
+    (h : latShoot e old ld idx xi (coinsOf x pre ++ eb) (coinsOf x post ++ ef) = .ok o) : o.accept = false := by
+  cases hacc : o.accept with
+  | false => rfl
+  | true =>
+    exfalso
+    obtain ⟨x', last, pre', post', hx', _, _, _, hpre', _, _, hpost', hfit, _, hcb, hcf, _⟩ :=
+      (shoot_accept_iff e old ld idx xi _ _ o).1 ⟨h, hacc⟩
+    rw [hx] at hx'
+    cases hx'
+    have e1 := seg_coins_unique e.top pre x pre' eb hpre hpre' hcb
+    have e2 := seg_coins_unique e.top post x post' ef hpost hpost' hcf
+    subst e1 e2
+    omega
+
+example : latShoot { mid := 1, top := 3, maxlength := 100 } [0, 1, 2, 1, 0] false 2 (39 / 64)
+    (coinsOf 2 [1, 0]) (coinsOf 2 [1, 2, 1, 0]) =
+    .ok { accept := false, status := .FTL, trial := [0, 1, 2, 1, 2, 1], genNb := 2, maxlen := 6, usedB := 2, usedF := 3 } := by
+  decide +kernel
+
+/-- **The length rule is the Metropolis factor.**  For ξ > 0 a new path with `b` interior frames fits the limit
+    `min(int(a/ξ) + 2, maxlength)` drawn from an old path with `a` interior frames iff it fits `maxlength` and
+    ξ·b ≤ a — over a uniform ξ that is probability min(1, a/b), the `accProb .stated a b` of `shoot_detailed_balance`. -/
+theorem shoot_length_rule_xi (e : Ens) (a b : Nat) (xi : Rat) (hxi : 0 < xi) :
+    b + 2 ≤ maxlenOf e (a + 2) false xi ↔ b + 2 ≤ e.maxlength ∧ xi * (b : Rat) ≤ (a : Rat) :=
+  fits_iff_xi e a b xi hxi
+
+example : (5 + 2 ≤ maxlenOf { mid := 1, top := 3, maxlength := 100 } (3 + 2) false (3 / 5))
+    ∧ ¬ (5 + 2 ≤ maxlenOf { mid := 1, top := 3, maxlength := 100 } (3 + 2) false (39 / 64)) := by
+  decide +kernel
+
+/-- **Detailed balance between any two lattice paths.**  With the kernel assembled from the actual paths (match count of
+    their interior frames, their lengths), π(o)·K(o→n) = π(n)·K(n→o) for all paths with at least one interior frame. -/
+theorem shoot_detailed_balance_paths (o n : List Int) (ho : 2 < o.length) (hn : 2 < n.length) :
+    pathWeight o * kernelPaths o n = pathWeight n * kernelPaths n o := by
+  unfold pathWeight kernelPaths
+  rw [matchCount_symm (interior n) (interior o)]
+  exact shoot_detailed_balance (1 / 2) _ (o.length - 2) (n.length - 2) (by omega) (by omega)
+
+example : pathWeight [0, 1, 2, 1, 0] * kernelPaths [0, 1, 2, 1, 0] [0, 1, 2, 1, 2, 1, 0] = 1 / 640
+    ∧ matchCount (interior [0, 1, 2, 1, 0]) (interior [0, 1, 2, 1, 2, 1, 0]) = 8 := by decide +kernel
+
+/-- **Invariance over any finite family of paths.**  Σ_{o∈S} π(o)·K(o→n) = π(n)·Σ_{o∈S} K(n→o): the probability
+    flowing into `n` from `S` equals π(n) times the probability that the move started in `n` lands in `S`
+    (≤ π(n), with equality in the limit S → all paths, rejections included: the path measure of the lattice walk
+    restricted to the ensemble is invariant). -/
+theorem shoot_invariant_finite (n : List Int) (hn : 2 < n.length) : ∀ S : List (List Int), (∀ o ∈ S, 2 < o.length) →
+    rsum (S.map (fun o => pathWeight o * kernelPaths o n)) = pathWeight n * rsum (S.map (fun o => kernelPaths n o))
+  | [], _ => by simp [rsum]
+  | o :: t, h => by
+    simp only [List.map_cons, rsum]
+    rw [shoot_invariant_finite n hn t (fun o' ho' => h o' (by simp [ho'])),
+      shoot_detailed_balance_paths o n (h o (by simp)) hn]
+    ring
+
+example : rsum ([[0, 1, 0], [0, 1, 2, 1, 0]].map (fun o => pathWeight o * kernelPaths o [0, 1, 2, 3]))
+    = pathWeight [0, 1, 2, 3] * rsum ([[0, 1, 0], [0, 1, 2, 1, 0]].map (fun o => kernelPaths [0, 1, 2, 3] o)) :=
+  shoot_invariant_finite _ (by decide) _ (by decide)
+
+end Shooting
+
+/-! ### the ∞-swap step: marginals and Rao–Blackwell -/
+section Swap
+open Infretis.LatticeMoves
+
+/-- **Marginal of the assignment distribution.**  For weighted assignments (σ, w(σ)) (w(σ) = Π_i W[i,σ(i)] in the code's
+    case; any weights here) with path indices below M:  Σ_j marginal(i,j)·g(j) = Σ_σ w(σ)·g(σ(i)). -/
+theorem swap_marginal_expect (g : Nat → Rat) (i M : Nat) (as : List (List Nat × Rat))
+    (h : ∀ a ∈ as, ∀ j ∈ a.1, j < M) :
+    rsum ((List.range M).map (fun j => marginalNum as i j * g j)) = rsum (as.map (fun a => a.2 * atEns a.1 i g)) :=
+  marginal_expect g i M as h
+
+/-- every row of the marginal matrix sums to the total weight (so P = marginal/total has unit row sums) -/
+theorem swap_marginal_row_sum (i M N : Nat) (hi : i < N) (as : List (List Nat × Rat))
+    (h : ∀ a ∈ as, a.1.length = N ∧ ∀ j ∈ a.1, j < M) :
+    rsum ((List.range M).map (fun j => marginalNum as i j)) = total as := by
+  have := marginal_expect (fun _ => 1) i M as (fun a ha => (h a ha).2)
+  simp only [mul_one] at this
+  rw [this]
+  unfold total
+  apply rsum_map_congr
+  intro a ha
+  unfold atEns
+  have : i < a.1.length := by rw [(h a ha).1]; exact hi
+  simp [List.getElem?_eq_getElem this]
+
+/-- **Rao–Blackwell over finite sums.**  Recording, for every ensemble i, the whole row Σ_j marginal(i,j)·f(i,j)
+    (what infretis adds to `frac`: the row of the permanent-ratio matrix) has the same total as the expectation, over
+    the assignment distribution, of recording only the sampled assignment Σ_i f(i, σ(i)). -/
+theorem swap_rao_blackwell (f : Nat → Nat → Rat) (N M : Nat) (as : List (List Nat × Rat))
+    (h : ∀ a ∈ as, ∀ j ∈ a.1, j < M) :
+    rsum ((List.range N).map (fun i => rsum ((List.range M).map (fun j => marginalNum as i j * f i j))))
+      = rsum (as.map (fun a => a.2 * rsum ((List.range N).map (fun i => atEns a.1 i (f i))))) := by
+  have h1 : ∀ i ∈ List.range N, rsum ((List.range M).map (fun j => marginalNum as i j * f i j))
+      = rsum (as.map (fun a => a.2 * atEns a.1 i (f i))) := fun i _ => marginal_expect (f i) i M as h
+  rw [rsum_map_congr _ _ _ h1, rsum_swap (fun i a => a.2 * atEns a.1 i (f i)) (List.range N) as]
+  apply rsum_map_congr
+  intro a _
+  rw [rsum_map_mul_left]
+
+example :
+    let as : List (List Nat × Rat) := [([0, 1], 2), ([1, 0], 1)]
+    marginalNum as 0 0 = 2 ∧ marginalNum as 0 1 = 1 ∧ total as = 3
+      ∧ rsum ((List.range 2).map (fun i => rsum ((List.range 2).map (fun j => marginalNum as i j * ((i : Rat) + 2 * j)))))
+        = rsum (as.map (fun a => a.2 * rsum ((List.range 2).map (fun i => atEns a.1 i (fun j => (i : Rat) + 2 * j))))) := by
+  decide +kernel
+
+/-- **The swap matrix the code computes, as a matrix of marginals** (instance of the two theorems above for the
+    enumerated permutations with weights Π_i W[i,σ(i)] — `assignments W`; the tie compares `margMatrix W` with the real
+    `REPEX_state.inf_retis` on every run): every row of the marginals sums to the permanent, and adding the rows of the
+    marginal matrix to `frac` has the same total as the expectation of adding the sampled permutation. -/
+theorem swap_permutations_rao_blackwell (W : List (List Rat)) (f : Nat → Nat → Rat) :
+    (∀ i, i < W.length →
+      rsum ((List.range W.length).map (fun j => marginalNum (assignments W) i j)) = total (assignments W)) ∧
+    rsum ((List.range W.length).map (fun i =>
+        rsum ((List.range W.length).map (fun j => marginalNum (assignments W) i j * f i j))))
+      = rsum ((assignments W).map (fun a =>
+        a.2 * rsum ((List.range W.length).map (fun i => atEns a.1 i (f i))))) :=
+  ⟨fun i hi => swap_marginal_row_sum i W.length W.length hi (assignments W) (assignments_spec W),
+   swap_rao_blackwell f W.length W.length (assignments W) (fun a ha => (assignments_spec W a ha).2)⟩
+
+example :
+    let W : List (List Rat) := [[1, 0, 0], [0, 2, 1], [0, 1, 1]]
+    margMatrix W = some [[1, 0, 0], [0, 2 / 3, 1 / 3], [0, 1 / 3, 2 / 3]] ∧ total (assignments W) = 3
+      ∧ (perms 3).length = 6 := by
+  decide +kernel
+
+end Swap
+
+/-! ### exact path lengths: a second family of closed-form references -/
+section Length
+open Infretis.LatticeMoves
+
+/-- **Exit time, every segment.**  Any solution of the first-step equations of the exit time of (0, N) is x·(N−x). -/
+theorem exit_time_closed_form (N : Nat) (hN : 0 < N) (t : Nat → Rat) (h : ExitTimeEq N t) (x : Nat) (hx : x ≤ N) :
+    t x = (x : Rat) * ((N : Rat) - (x : Rat)) :=
+  exitTime_unique N hN t h x hx
+
+/-- **Time to the top on the event that the top comes first.**  Any solution of the first-step equations of
+    E[steps·1{N before 0}] is x·(N²−x²)/(3N); the equations have a solution (`hitTime N`), as have those of the exit time. -/
+theorem hit_time_closed_form (N : Nat) (hN : 0 < N) (m : Nat → Rat) (h : HitTimeEq N m) (x : Nat) (hx : x ≤ N) :
+    m x = (x : Rat) * ((N : Rat) * (N : Rat) - (x : Rat) * (x : Rat)) / (3 * (N : Rat)) :=
+  hitTime_unique N hN m h x hx
+
+theorem length_equations_solvable (N : Nat) (hN : 0 < N) : ExitTimeEq N (exitTime N) ∧ HitTimeEq N (hitTime N) :=
+  ⟨exitTime_eq N, hitTime_eq N hN⟩
+
+/-- **Mean path length of data column k with n interfaces**: 2 + (k²−1)/3 + k·(n−k) frames.
+    Reading: frames on site 0 and site 1, then (strong Markov property, not formalised) the conditional time from
+    site 1 to site k given k before 0, then the exit time of (0, n) from site k. -/
+theorem mean_length_closed_form (n k : Nat) (hk : 0 < k) :
+    meanLen n k = 2 + ((k : Rat) * (k : Rat) - 1) / 3 + (k : Rat) * ((n : Rat) - (k : Rat)) := by
+  have hk' : (k : Rat) ≠ 0 := by exact_mod_cast (Nat.pos_iff_ne_zero.1 hk)
+  unfold meanLen hitTime exitTime ruin
+  push_cast
+  field_simp
+
+example : meanLen 4 1 = 5 ∧ meanLen 4 2 = 7 ∧ meanLen 4 3 = 23 / 3 ∧ exitTime 4 2 = 4 ∧ hitTime 3 1 = 8 / 9 := by
+  decide +kernel
+
+end Length
+
+/-! ### from stationary fractions to crossing probabilities -/
+
+/-- **The estimator's limit is the ratio of expectations.**  If the accumulated fractions are stationary — every
+    contributing row has frac_k / w_k = c·ρ(r) for one constant c > 0, which is what invariance of
+    π_k(p) ∝ ρ(p)·w_k(p) under the moves gives for the occupation of column k (ergodicity assumed, not proved) — then the
+    estimate is exactly Σ ρ·[crossed λ_k] / Σ ρ: the high-acceptance weight w_k cancels, whatever it is. -/
+theorem estimate_of_stationary_fractions (k : Nat) (rows : List Row) (c : Rat) (ρ : Row → Rat) (hc : 0 < c)
+    (hterm : ∀ r ∈ rows, term k r = c * ρ r) (hden : sumOver ρ rows ≠ 0) :
+    estimate k rows = some (sumOver (fun r => if crossed k r then ρ r else 0) rows / sumOver ρ rows) := by
+  have hc0 : c ≠ 0 := ne_of_gt hc
+  have hmul : ∀ (f : Row → Rat) (l : List Row), sumOver (fun r => c * f r) l = c * sumOver f l := by
+    intro f l
+    induction l with
+    | nil => simp [sumOver]
+    | cons r t ih => simp only [sumOver, ih]; ring
+  have hd : den k rows = c * sumOver ρ rows := by
+    unfold den
+    rw [sumOver_congr (term k) (fun r => c * ρ r) rows hterm, hmul]
+  have hn : num k rows = c * sumOver (fun r => if crossed k r then ρ r else 0) rows := by
+    unfold num
+    rw [← hmul]
+    apply sumOver_congr
+    intro r hr
+    by_cases hcr : crossed k r = true
+    · simp [hcr, hterm r hr]
+    · simp [hcr]
+  unfold estimate
+  rw [hd, hn, if_neg (mul_ne_zero hc0 hden), mul_div_mul_left _ _ hc0]
+
+/-- the hypothesis of `estimate_of_stationary_fractions` holds for a row whose column k carries
+    frac = c·ρ·w with w > 0 and ρ > 0 -/
+theorem term_of_weighted_fraction (k : Nat) (r : Row) (c ρ f w : Rat) (hf : r.frac[k]? = some f) (hw : r.w[k]? = some w)
+    (hc : 0 < c) (hρ : 0 < ρ) (hw0 : 0 < w) (hfr : f = c * ρ * w) : term k r = c * ρ := by
+  unfold term
+  rw [hf, hw]
+  have hf0 : 0 < f := by rw [hfr]; positivity
+  simp only [hf0, hw0, and_self, if_true]
+  rw [hfr, mul_div_assoc, div_self (ne_of_gt hw0), mul_one]
+
+example :
+    let rows : List Row := [{ len := 5, maxOp := 5 / 2, frac := [0, 3 * 2 * 4], w := [0, 4] },
+                            { len := 7, maxOp := 1 / 2, frac := [0, 3 * 1 * 5], w := [0, 5] }]
+    estimate 1 rows = some (2 / 3) ∧ term 1 rows[0] = 3 * 2 ∧ term 1 rows[1] = 3 * 1 := by
   decide +kernel
 
 end Infretis.C01
